@@ -56,6 +56,14 @@ def record(ck, c, stream):
         gate_bad = S.cmp_gate_fault(c, S.ref_fault_test(c))
         ck.extra['false_assertions_per_case']['in-callee'] += 1
         ck.count(c.s_src, True)
+    elif c.ref_a['cls'] == 'fault-oob':
+        # the reference stops at an out-of-range array index inside a test: the gate must stay closed
+        if c.r_rc == 0:
+            gate_bad.append('a shadow test indexes an array out of range (reference) but nanoc exits 0')
+        if c.r_binary:
+            gate_bad.append('a shadow test indexes an array out of range (reference) but an executable is left at the output path')
+        ck.extra['false_assertions_per_case']['out-of-range'] += 1
+        ck.count(c.s_src, True)
     else:
         ck.extra['ref_unavailable'][c.ref_a['cls']] += 1
         ck.count(c.s_src, False)
